@@ -256,8 +256,10 @@ call_with_inference_limit(G, L, R, Bb, B) :-
     Diff is max(0, L - (Count1 - Count0)),
     (  '$clean_up_block'(NBb),
        '$reset_block'(Bb)
-    ;  '$install_inference_counter'(NBb, Diff, _),
+    ;  % re-install the block before the counter: an exception (an interrupt)
+       % raised in between must reach the clause below, which removes the counter.
        '$reset_block'(NBb),
+       '$install_inference_counter'(NBb, Diff, _),
        '$fail'
     ).
 call_with_inference_limit(_, _, R, Bb, B) :-
